@@ -91,11 +91,14 @@ def kstr(key):
     return json.dumps(key, sort_keys=True)
 
 
-def pair_histories(alphabet):
+def pair_histories(alphabet, thin=None):
+    """thin = None: three histories per ordered pair; thin = k (quick tier): the single-builder history A, B, A and the shortest-path
+    history for every pair, the two-builder history for half of the pairs (which half: k)."""
     hs = []
-    for A, B in itertools.product(alphabet, repeat=2):
+    for (ia, A), (ib, B) in itertools.product(enumerate(alphabet), repeat=2):
         if A == B:
             continue
+        half = None if thin is None else (ia + ib + thin) % 2
 
         def conf(b, K, order=("parent", "child", "ls")):
             cfg, choice, perm = K
@@ -109,7 +112,8 @@ def pair_histories(alphabet):
         # one builder: A, B, A again;  two builders interleaved: 1 under A, 2 under B, 1 again
         # (the naming flags are assigned in another order the second time)
         hs.append(conf(1, A) + [["Formulate", 1]] + conf(1, B, order=("ls", "child", "parent")) + [["Formulate", 1]] + conf(1, A) + [["Formulate", 1]])
-        hs.append(conf(1, A) + conf(2, B) + [["Formulate", 2], ["Formulate", 1], ["Formulate", 2]])
+        if half in (None, 0):
+            hs.append(conf(1, A) + conf(2, B) + [["Formulate", 2], ["Formulate", 1], ["Formulate", 2]])
         # the shortest way from A to B: only the options that differ are assigned before the model is formulated again
         fa, fb = conf(1, A), conf(1, B)
         delta = [y for x, y in zip(fa, fb) if x != y] + ([["Permutate", 1]] if B[2] and not A[2] else [])
@@ -157,7 +161,7 @@ def run(chk, replay=None):
     chk.part("deviation_sensitivity", DpdCacheAliasing="violates Pure", NoReset="violates Pure", ResetAtEnd="violates Pure", SharedNameMap="violates Pure", LazyNameMapOnLs="violates Pure", CrossReactionCache="violates Pure", ProcessWideMemo="violates Pure")
 
     # 2. behaviours
-    big = dict(aligns='{"none", "axis", "dpd1", "dpd2"}', stables='{"none", "all", "one", "bogus"}', names='{"R1", "R2"}', tags='{"none", "bw", "bwff"}')
+    big = dict(aligns='{"none", "axis", "dpd1", "dpd2"}', stables='{"none", "all", "one", "bogus"}', names='{"R1", "R2"}', tags='{"none", "bw", "bwff", "bwc", "bwa"}')
     nsim = 60 if tier == "thorough" else 12
     behs = tlc.simulate("Builder_MC", MC_CFG.format(**big, builders="{1, 2, 3, 4}", ops=14, dev="DevNone", props=""), num=nsim, depth=15, seed=chk.seed + 3, with_states=False)
     histories = [spec_actions(b) for b in behs]
@@ -174,6 +178,8 @@ def run(chk, replay=None):
         [dict(base, align="axis", stable="one"), {}, 0],
         [dict(base, stable="all", coup=1), {"R1": "bw"}, 0],
         [dict(base), {}, 1],
+        [dict(base), {"R1": "bwc"}, 0],             # Breit-Wigner with form factor and constant width (no convenience function builds it)
+        [dict(base), {"R1": "bw", "R2": "bwa"}, 0],
         [dict(base, naming=nm(parent=1)), {}, 0],       # naming options of the amplitude name generator
         [dict(base, naming=nm(child=1), coup=1), {}, 0],
         [dict(base, naming=nm(ls=1)), {}, 0],
@@ -183,7 +189,7 @@ def run(chk, replay=None):
     if tier == "thorough":
         alphabet += [[dict(base, align="dpd2", scalar=1), {"R1": "bw", "R2": "bwff"}, 0], [dict(base, align="axis", coup=1), {"R2": "bwff"}, 0],
                      [dict(base, align="dpd1", stable="one"), {"R1": "bwff"}, 1]]
-    histories += pair_histories(alphabet)
+    histories += pair_histories(alphabet, thin=None if tier == "thorough" else chk.seed)
     reactions = [("jpsi_ksp_sigma", "helicity"), ("synth:11", "canonical-helicity"), ("jpsi_gpp_f0", "canonical-helicity"), ("jpsi_ksp_sigma@orig", "helicity"), ("jpsi_gpp_omega@orig", "helicity")] + ([("jpsi_3pi_rho", "helicity"), ("synth:5", "helicity")] if tier == "thorough" else [])
     seeds = [None, 0, 12345] + ([1] if tier == "thorough" else [])
 
@@ -195,19 +201,21 @@ def run(chk, replay=None):
     keylist = list(keys.values())
 
     nchunks = 5
+    nref = 3   # the fresh-process references of one (reaction, hash seed) are computed in nref parallel children
     chunks = [list(range(c, len(histories), nchunks)) for c in range(nchunks)]
     jobs = []
     for rname, formalism in reactions:
         for c in range(nchunks):
             jobs.append(("replay", rname, formalism, None, c))
         for s in seeds:
-            jobs.append(("ref", rname, formalism, s, 0))
+            for c in range(nref):
+                jobs.append(("ref", rname, formalism, s, c))
 
     def do(job):
         mode, rname, formalism, s, c = job
         payload = {"reaction": rname, "formalism": formalism, "mode": mode}
         if mode == "ref":
-            payload["keys"] = keylist
+            payload["keys"] = keylist[c::nref]
         else:
             payload["behaviours"] = [histories[i] for i in chunks[c]]
         return job, run_exec(payload, s)
@@ -222,7 +230,11 @@ def run(chk, replay=None):
                 merged[i] = r
         outs[("replay", rname, formalism, None)] = {"results": merged}
         for s in seeds:
-            outs[("ref", rname, formalism, s)] = outs[("ref", rname, formalism, s, 0)]
+            mergedr = [None] * len(keylist)
+            for c in range(nref):
+                for i, r in zip(range(c, len(keylist), nref), outs[("ref", rname, formalism, s, c)]["results"]):
+                    mergedr[i] = r
+            outs[("ref", rname, formalism, s)] = {"results": mergedr}
 
     total_formulates = 0
     for rname, formalism in reactions:
